@@ -18,6 +18,9 @@ struct Case {
     elc: Option<char>,
     over: Vec<(char, u8)>,
     report: bool,
+    /// dynamic configuration: from the (k+1)-th call of `Lexer::next` on, this end-line character and
+    /// these reassignments are in force instead
+    switch: Option<(usize, Option<char>, Vec<(char, u8)>)>,
 }
 
 impl Case {
@@ -28,6 +31,8 @@ impl Case {
             "elc": self.elc.map(|c| c as u32),
             "over": self.over.iter().map(|(c, k)| json!([*c as u32, k])).collect::<Vec<_>>(),
             "report": self.report,
+            "switch": self.switch.as_ref().map(|(k, e, o)| json!({"after_calls": k, "elc": e.map(|c| c as u32), "over": o.iter().map(|(c, k)| json!([*c as u32, k])).collect::<Vec<_>>(),
+                "readable": format!("from call {} of Lexer::next on: end-line char {:?}, plain TeX catcodes{}", k + 1, e, o.iter().map(|(c, k)| format!(" with catcode({c:?})={k}")).collect::<String>())})),
             "readable": format!("source {:?}, end-line char {:?}, plain TeX catcodes{}, report_end_of_line={}",
                 self.src, self.elc,
                 self.over.iter().map(|(c, k)| format!(" with catcode({c:?})={k}")).collect::<String>(), self.report),
@@ -39,6 +44,16 @@ impl Case {
             elc: v["elc"].as_u64().and_then(|u| char::from_u32(u as u32)),
             over: v["over"].as_array().map(|a| a.iter().map(|p| (char::from_u32(p[0].as_u64().unwrap() as u32).unwrap(), p[1].as_u64().unwrap() as u8)).collect()).unwrap_or_default(),
             report: v["report"].as_bool().unwrap_or(true),
+            switch: if v["switch"].is_object() {
+                let w = &v["switch"];
+                Some((
+                    w["after_calls"].as_u64().unwrap_or(0) as usize,
+                    w["elc"].as_u64().and_then(|u| char::from_u32(u as u32)),
+                    w["over"].as_array().map(|a| a.iter().map(|p| (char::from_u32(p[0].as_u64().unwrap() as u32).unwrap(), p[1].as_u64().unwrap() as u8)).collect()).unwrap_or_default(),
+                ))
+            } else {
+                None
+            },
         }
     }
 }
@@ -83,7 +98,12 @@ enum Obs {
 const DECOY: &str = "zz\nz";
 
 fn run_impl(case: &Case) -> Vec<Obs> {
-    let cfg = ImplCfg { over: &case.over, elc: case.elc };
+    let cfg1 = ImplCfg { over: &case.over, elc: case.elc };
+    let (k_switch, cfg2) = match &case.switch {
+        Some((k, e, o)) => (*k, ImplCfg { over: o, elc: *e }),
+        None => (usize::MAX, ImplCfg { over: &case.over, elc: case.elc }),
+    };
+    let mut calls = 0usize;
     let mut tracer: Tracer = Default::default();
     let mut interner: CsNameInterner = Default::default();
     // a source registered before and one after: keys do not start at 0, and a key that leaves its
@@ -95,7 +115,9 @@ fn run_impl(case: &Case) -> Vec<Obs> {
     let cap = 4 * case.src.chars().count() + 16;
     let mut out = Vec::with_capacity(8);
     loop {
-        match lx.next(&cfg, &mut interner, case.report) {
+        let cfg = if calls >= k_switch { &cfg2 } else { &cfg1 };
+        calls += 1;
+        match lx.next(cfg, &mut interner, case.report) {
             lexer::Result::Token(t) => {
                 let tr = tracer.trace(t, &interner);
                 let v = match t.value() {
@@ -123,7 +145,7 @@ fn run_impl(case: &Case) -> Vec<Obs> {
         }
     }
     // the end of input is stable
-    if !matches!(lx.next(&cfg, &mut interner, case.report), lexer::Result::EndOfInput) {
+    if !matches!(lx.next(&cfg2, &mut interner, case.report), lexer::Result::EndOfInput) {
         out.push(Obs::Runaway);
     }
     out
@@ -153,10 +175,25 @@ fn expect(items: &[Item], src: &scan::Source, report: bool) -> Vec<Obs> {
 
 fn run_model(case: &Case, low: &[u8; 128], hex: bool) -> (Vec<Item>, scan::Source) {
     let cfg = model_cfg(case, low, hex);
+    let cfg2 = case.switch.as_ref().map(|(_, e, o)| scan::Config { table: Table { low: *low, over: o.clone() }, end_line_char: *e, hex });
     let mut s = scan::Source::new(&case.src);
     let mut items = vec![];
+    let mut calls = 0usize;
     loop {
-        match s.next(&cfg) {
+        let c = match (&case.switch, &cfg2) {
+            (Some((k, _, _)), Some(c2)) if calls >= *k => c2,
+            _ => &cfg,
+        };
+        calls += 1;
+        // one call of Lexer::next = one item; when line ends are not reported the next line is loaded
+        // inside the same call, i.e. under the same configuration
+        let item = loop {
+            match s.next(c) {
+                Item::NewLine if case.switch.is_some() && !case.report => continue,
+                i => break i,
+            }
+        };
+        match item {
             Item::End => break,
             i => items.push(i),
         }
@@ -317,6 +354,8 @@ fn judge(idx: u64, case: &Case, e: &Expected, acc: &mut Acc) {
 
 const SIGMA_Q: [char; 9] = ['\\', '{', '^', ' ', '\n', 'a', 'M', '%', 'é'];
 const SIGMA_T: [char; 16] = ['\\', '{', '^', ' ', '\n', 'a', 'M', '%', 'é', '\r', '\0', '\u{7f}', '~', '5', 'e', '\t'];
+/// caret-centred alphabet: U+001E is `^`-64 (`^^` + U+001E = `^`), `5e` is the hex form of `^`, `M`+64.. gives CR
+const SIGMA_C: [char; 9] = ['^', '\u{1e}', '\\', 'a', '5', 'e', 'M', 'é', '\n'];
 const ELCS: [Option<char>; 7] = [Some('\r'), None, Some('a'), Some('^'), Some(' '), Some('%'), Some('\\')];
 
 fn nth_src(sigma: &[char], i: u64) -> String {
@@ -360,16 +399,20 @@ fn plain_cat(low: &[u8; 128], c: char) -> u8 {
 
 /// All cases of one (source, end-line char) with `ndev` reassigned characters, both report flags.
 fn sweep(idx: u64, src: &str, elc: Option<char>, ndev: usize, low: &[u8; 128], acc: &mut Acc) {
-    let mut one = |over: Vec<(char, u8)>, acc: &mut Acc| {
-        let mut case = Case { src: src.to_string(), elc, over, report: true };
+    let one = |over: Vec<(char, u8)>, acc: &mut Acc| {
+        let mut case = Case { src: src.to_string(), elc, over, report: true, switch: None };
         let e = model_side(&case, low);
         count_case(&case, low, &e, acc);
         judge(idx, &case, &e, acc);
         case.report = false;
         count_case(&case, low, &e, acc);
         judge(idx, &case, &e, acc);
-        if idx % 40009 == 11 {
-            acc.sample(idx, || case.json());
+        if idx % 40009 == 4711 && case.over.len() <= 1 {
+            acc.sample(idx, || {
+                let mut j = case.json();
+                j["model"] = json!(show(&expect(&e.items, &e.src, false)));
+                j
+            });
         }
     };
     match ndev {
@@ -503,7 +546,7 @@ fn self_validate(ctx: &mut Ctx, low: &[u8; 128]) {
     // ^^K); the table is an *input* of the property, so this is recorded, not judged
     ctx.extra("plain_table_differs_from_texbook_at", json!(diff));
     for (name, src, elc, over, want) in golden() {
-        let case = Case { src: src.clone(), elc, over, report: true };
+        let case = Case { src: src.clone(), elc, over, report: true, switch: None };
         // the goldens were recorded from an implementation without the hex form; none of them
         // contains one, so both switches must agree
         for hex in [true, false] {
@@ -540,7 +583,7 @@ fn self_validate(ctx: &mut Ctx, low: &[u8; 128]) {
         ("\\a^^62 c", "\\ab c/11  /10"),      // §355: the reduced letter joins the name
         ("^^5", "u/11  /10"),                 // one hex digit only: the 64-flip
     ] {
-        let c = Case { src: src.into(), elc: Some('\r'), over: vec![], report: true };
+        let c = Case { src: src.into(), elc: Some('\r'), over: vec![], report: true, switch: None };
         let (items, _) = run_model(&c, low, true);
         let got: Vec<String> = items.iter().map(|i| match i { Item::Tok(t) => t.v.exact(), Item::Invalid { c, .. } => format!("!{}", *c as u32), _ => "NL".into() }).collect();
         if got.join(" ") != want {
@@ -557,8 +600,9 @@ fn main() {
     ctx.assume("lines are the pieces of the source between '\\n' characters, a final '\\n' does not open a further line and the empty source has no line (the crate's documented convention; TeX leaves line splitting to input_ln / the operating system)");
     ctx.assume("position convention (DESIGN C03): a control sequence is positioned at its escape character, a character made by ^^x / ^^xy at the last character of the sequence (the buffer slot rewritten in place, pinned by the crate's own tests), tokens made from the end-line character at column = length of the right-trimmed line; line text = the untrimmed text of the source line");
     ctx.assume("the category code table is an input: plain-TeX table of the crate (CatCode::PLAIN_TEX_DEFAULTS, 'other' above 127) with at most two characters reassigned; the reassigned characters range over the characters of the source, the end-line character and the characters a ^^x reduction of the source can produce");
+    ctx.assume("dynamic configurations: a change takes effect at the next call of Lexer::next, the end-line character of a line is the one in force when the line is loaded (§360), which happens in the call that first needs the line");
     ctx.assume("after an invalid character TeX reports an error and goes on scanning (§346); the lexer is driven on after Result::InvalidCharacter and must deliver the remaining tokens");
-    ctx.assume("\\endlinechar ranges over {none, CR, a, ^, space, %, \\}; characters produced by the two-hex-digit form are the Unicode scalar values 0..=255");
+    ctx.assume("\\endlinechar ranges over {none, CR, a, ^, space, %, \\} in the string families and over every ASCII character in elc-sweep; characters produced by the two-hex-digit form are the Unicode scalar values 0..=255");
 
     if let Some((_fam, case)) = ctx.replay_case() {
         let mut acc = Acc::default();
@@ -571,51 +615,97 @@ fn main() {
     self_validate(&mut ctx, &low);
 
     let nelc = ELCS.len() as u64;
-    // F1: every string, plain table
+    // (family, alphabet, max length quick, max length thorough, number of reassigned characters)
+    let plan: [(&str, &[char], u32, u32, usize); 8] = [
+        ("plain", &SIGMA_Q, 6, 7, 0),
+        ("caret", &SIGMA_C, 6, 7, 0),
+        ("caret-dev1", &SIGMA_C, 4, 5, 1),
+        ("plain-wide", &SIGMA_T, 4, 6, 0),
+        ("dev1", &SIGMA_Q, 4, 6, 1),
+        ("dev1-wide", &SIGMA_T, 3, 4, 1),
+        ("dev2", &SIGMA_Q, 3, 4, 2),
+        ("dev2-wide", &SIGMA_T, 2, 3, 2),
+    ];
+    for (name, sigma, lq, lt, ndev) in plan {
+        let len = ctx.pick(lq, lt);
+        let n = vcore::strings_upto(sigma.len() as u64, len) * nelc;
+        let tables = match ndev {
+            0 => "the plain TeX category codes".to_string(),
+            1 => "every single reassignment (each candidate character -> each of its 15 other codes)".to_string(),
+            _ => "every reassignment of two candidate characters (15 x 15 codes per pair)".to_string(),
+        };
+        ctx.family(name, &format!("every string of length <= {len} over {sigma:?} x 7 end-line characters {ELCS:?} x report_end_of_line in {{true,false}} x {tables}"), n, |i, acc| {
+            let src = nth_src(sigma, i / nelc);
+            sweep(i, &src, ELCS[(i % nelc) as usize], ndev, &low, acc);
+        });
+    }
+
+    // every ASCII end-line character
     {
-        let (sigma, len): (&[char], u32) = if ctx.quick() { (&SIGMA_Q, 6) } else { (&SIGMA_Q, 7) };
-        let n = vcore::strings_upto(sigma.len() as u64, len) * nelc;
-        ctx.family("plain", &format!("every string of length <= {len} over {sigma:?} x 7 end-line characters x report_end_of_line in {{true,false}}, plain TeX category codes"), n, |i, acc| {
-            let src = nth_src(sigma, i / nelc);
-            sweep(i, &src, ELCS[(i % nelc) as usize], 0, &low, acc);
+        let len = ctx.pick(3u32, 4u32);
+        let nstr = vcore::strings_upto(SIGMA_Q.len() as u64, len);
+        ctx.family("elc-sweep", &format!("every string of length <= {len} over {SIGMA_Q:?} x every end-line character 0..=127 x both report flags x (plain table + every reassignment of the end-line character's category code)"), nstr * 128, |i, acc| {
+            let src = nth_src(&SIGMA_Q, i / 128);
+            let e = char::from_u32((i % 128) as u32).unwrap();
+            for k in 0u8..16 {
+                let over = if k == plain_cat(&low, e) { vec![] } else { vec![(e, k)] };
+                let mut case = Case { src: src.clone(), elc: Some(e), over, report: true, switch: None };
+                let m = model_side(&case, &low);
+                count_case(&case, &low, &m, acc);
+                judge(i, &case, &m, acc);
+                case.report = false;
+                judge(i, &case, &m, acc);
+            }
         });
     }
-    if !ctx.quick() {
-        let (sigma, len): (&[char], u32) = (&SIGMA_T, 6);
-        let n = vcore::strings_upto(sigma.len() as u64, len) * nelc;
-        ctx.family("plain-wide", &format!("every string of length <= {len} over {sigma:?} x 7 end-line characters x both report flags, plain TeX category codes"), n, |i, acc| {
-            let src = nth_src(sigma, i / nelc);
-            sweep(i, &src, ELCS[(i % nelc) as usize], 0, &low, acc);
-        });
-    }
-    // F2: one reassigned character
+
+    // dynamic configuration: \catcode / \endlinechar change between two calls (just-in-time lexing)
     {
-        let (sigma, len): (&[char], u32) = if ctx.quick() { (&SIGMA_Q, 4) } else { (&SIGMA_Q, 6) };
-        let n = vcore::strings_upto(sigma.len() as u64, len) * nelc;
-        ctx.family("dev1", &format!("every string of length <= {len} over {sigma:?} x 7 end-line characters x both report flags x every single reassignment (candidate character -> each of the 15 other codes)"), n, |i, acc| {
-            let src = nth_src(sigma, i / nelc);
-            sweep(i, &src, ELCS[(i % nelc) as usize], 1, &low, acc);
-        });
-    }
-    if !ctx.quick() {
-        let (sigma, len): (&[char], u32) = (&SIGMA_T, 4);
-        let n = vcore::strings_upto(sigma.len() as u64, len) * nelc;
-        ctx.family("dev1-wide", &format!("every string of length <= {len} over {sigma:?} x 7 end-line characters x both report flags x every single reassignment"), n, |i, acc| {
-            let src = nth_src(sigma, i / nelc);
-            sweep(i, &src, ELCS[(i % nelc) as usize], 1, &low, acc);
-        });
-    }
-    // F3: two reassigned characters
-    {
-        let (sigma, len): (&[char], u32) = if ctx.quick() { (&SIGMA_Q, 3) } else { (&SIGMA_Q, 4) };
-        let n = vcore::strings_upto(sigma.len() as u64, len) * nelc;
-        ctx.family("dev2", &format!("every string of length <= {len} over {sigma:?} x 7 end-line characters x both report flags x every reassignment of two candidate characters (15 x 15 codes per pair)"), n, |i, acc| {
-            let src = nth_src(sigma, i / nelc);
-            sweep(i, &src, ELCS[(i % nelc) as usize], 2, &low, acc);
+        let len = ctx.pick(4u32, 5u32);
+        let nstr = vcore::strings_upto(SIGMA_Q.len() as u64, len);
+        let variants: Vec<(Option<char>, Vec<(char, u8)>)> = vec![
+            (None, vec![]),
+            (Some('a'), vec![]),
+            (Some('^'), vec![]),
+            (Some('\\'), vec![]),
+            (Some('\r'), vec![('a', 0)]),
+            (Some('\r'), vec![('a', 9)]),
+            (Some('\r'), vec![('a', 14)]),
+            (Some('\r'), vec![('^', 12)]),
+            (Some('\r'), vec![(' ', 11)]),
+            (Some('\r'), vec![('\\', 12)]),
+            (Some('\r'), vec![('%', 12)]),
+            (Some('\r'), vec![('M', 5)]),
+            (Some('\r'), vec![('é', 7)]),
+            (Some('\r'), vec![('\r', 11)]),
+            (Some('\r'), vec![('{', 10)]),
+        ];
+        let nv = variants.len() as u64;
+        let v = &variants;
+        ctx.family("dynamic", &format!("every string of length <= {len} over {SIGMA_Q:?}; the configuration changes once, after the 1st, 2nd or 3rd call of Lexer::next, between plain/CR and one of {nv} variants (end-line character none/a/^/\\, or one reassigned character), in both directions, both report flags"), nstr * nv * 3 * 2, |i, acc| {
+            let d = vcore::digits(i, &[nstr, nv, 3, 2]);
+            let src = nth_src(&SIGMA_Q, d[0]);
+            let (e2, o2) = v[d[1] as usize].clone();
+            let k = d[2] as usize + 1;
+            for report in [true, false] {
+                let case = if d[3] == 0 {
+                    Case { src: src.clone(), elc: Some('\r'), over: vec![], report, switch: Some((k, e2, o2.clone())) }
+                } else {
+                    Case { src: src.clone(), elc: e2, over: o2.clone(), report, switch: Some((k, Some('\r'), vec![])) }
+                };
+                let m = model_side(&case, &low);
+                // did the switch happen before the end of the input, on a line boundary or inside a line?
+                if m.items.len() >= k {
+                    acc.count("config_changed_before_end");
+                }
+                count_case(&case, &low, &m, acc);
+                judge(i, &case, &m, acc);
+            }
         });
     }
 
     ctx.require("caret_at_line_end", "a ^^ sequence ends at the last character of its line (end-line character included)");
+    ctx.require("config_changed_before_end", "the configuration changed while input was left (dynamic family)");
     ctx.require("caret_in_name", "a ^^ sequence is reduced inside a control sequence name");
     ctx.require("caret_recursive", "the product of a ^^ reduction starts a further ^^ sequence");
     ctx.require("nonascii_before_token", "a traced token stands after a non-ASCII character of the source");
